@@ -1,5 +1,6 @@
 /- C06 — helper lemmas for the divide-and-conquer conversions (models in Mpir/Model/RadixDc.lean). -/
 import MpirProofs.Lemmas.Radix
+import MpirProofs.Lemmas.RadixDcXn
 import Mpir.Model.RadixDc
 import Mathlib.Data.Nat.GCD.Basic
 namespace Mpir.RadixDc
@@ -670,5 +671,327 @@ theorem dcGetStr_ok {b cpl T : Nat} (hb : 2 ≤ b) (hcpl : 0 < cpl) (hbb : b ^ c
         conv_rhs => rw [hlen]
         rw [fixedDigits_split (by omega) pw.dib len' (val u) (by rw [← hlen]; exact (h1 hl).1),
           ← hPb, hQ, hR]
+
+/-! ### the table of powers of mpn_get_str -/
+
+theorem expAscGo_acc : ∀ (pn : Nat) (acc : List Nat), expAscGo pn acc = expAscGo pn [] ++ acc := by
+  intro pn
+  induction pn using Nat.strong_induction_on with
+  | _ pn ih =>
+    intro acc
+    rw [expAscGo]; conv_rhs => rw [expAscGo]
+    split
+    · simp
+    · rw [ih _ (by omega) (pn :: acc), ih _ (by omega) [pn]]; simp
+
+theorem expAsc_step {pn : Nat} (h : 2 ≤ pn) : expAsc pn = expAsc ((pn + 1) / 2) ++ [pn] := by
+  unfold expAsc; rw [expAscGo, dif_neg (by omega)]; exact expAscGo_acc _ [pn]
+
+theorem expAsc_small {pn : Nat} (h : pn ≤ 1) : expAsc pn = [] := by
+  unfold expAsc; rw [expAscGo, dif_pos h]
+
+/-- ascending exponent chain: every entry is at least 2 and the one before it is its rounded-up half -/
+def AscOk : Nat → List Nat → Prop
+  | _, [] => True
+  | prev, e :: l => 2 ≤ e ∧ prev = (e + 1) / 2 ∧ AscOk e l
+
+theorem AscOk_snoc : ∀ (l : List Nat) (prev x : Nat), AscOk prev l → 2 ≤ x → l.getLastD prev = (x + 1) / 2 →
+    AscOk prev (l ++ [x])
+  | [], prev, x, _, hx, hl => by
+    simp only [List.getLastD_nil] at hl
+    exact ⟨hx, hl, trivial⟩
+  | e :: l, prev, x, h, hx, hl => by
+    obtain ⟨h1, h2, h3⟩ := h
+    rw [List.getLastD_cons] at hl
+    exact ⟨h1, h2, AscOk_snoc l e x h3 hx hl⟩
+
+theorem expAsc_ok : ∀ pn : Nat, AscOk 1 (expAsc pn) ∧ (1 ≤ pn → (expAsc pn).getLastD 1 = pn) := by
+  intro pn
+  induction pn using Nat.strong_induction_on with
+  | _ pn ih =>
+    rcases Nat.lt_or_ge pn 2 with h | h
+    · rw [expAsc_small (by omega)]
+      exact ⟨trivial, fun h1 => by simp; omega⟩
+    · obtain ⟨a1, a2⟩ := ih ((pn + 1) / 2) (by omega)
+      rw [expAsc_step h]
+      refine ⟨AscOk_snoc _ _ _ a1 h (a2 (by omega)), fun _ => ?_⟩
+      simp
+
+theorem stripLow_zero (xs : List Nat) (sh : Nat) : stripLow (0 :: xs) sh = stripLow xs (sh + 1) := by
+  rw [stripLow]
+
+theorem stripLow_succ (n : Nat) (xs : List Nat) (sh : Nat) : stripLow ((n + 1) :: xs) sh = ((n + 1) :: xs, sh) := by
+  rw [stripLow]; intro rest h; simp at h
+
+theorem getLast!_cons_cons (x y : Nat) (l : List Nat) : (x :: y :: l).getLast! = (y :: l).getLast! := by
+  simp [List.getLast!]
+
+theorem stripLow_spec : ∀ (l : List Nat) (sh : Nat),
+    val (stripLow l sh).1 * B ^ (stripLow l sh).2 = val l * B ^ sh ∧ (∀ x ∈ (stripLow l sh).1, x ∈ l) ∧
+    ((stripLow l sh).1 ≠ [] → (stripLow l sh).1.getLast! = l.getLast!)
+  | [], sh => by simp [stripLow]
+  | 0 :: xs, sh => by
+    rw [stripLow_zero]
+    obtain ⟨h1, h2, h3⟩ := stripLow_spec xs (sh + 1)
+    refine ⟨?_, fun x hx => List.mem_cons_of_mem _ (h2 x hx), fun hne => ?_⟩
+    · rw [h1, val_cons, pow_succ]; ring
+    · rw [h3 hne]
+      cases xs with
+      | nil => simp [stripLow] at hne
+      | cons y ys => rw [getLast!_cons_cons]
+  | (n + 1) :: xs, sh => by
+    rw [stripLow_succ]; exact ⟨rfl, fun x hx => hx, fun _ => rfl⟩
+
+/-- one squaring round leaves the power with exponent `e - 1` (the final multiplication brings it to `e`) -/
+theorem getPowLoop_ok {b cpl : Nat} (hb : 2 ≤ b) :
+    ∀ (targets p : List Nat) (bexp shift dib : Nat), Limbs p → p ≠ [] → p.getLast! ≠ 0 →
+      val p * B ^ shift = (b ^ cpl) ^ bexp → dib = cpl * bexp → 1 ≤ bexp → AscOk (bexp + 1) targets →
+      List.Forall₂ (fun pw e => PowOk b cpl pw (e - 1)) (getPowLoop (b ^ cpl) cpl targets p bexp shift dib) targets
+  | [], _, _, _, _, _, _, _, _, _, _, _ => by simp [getPowLoop]
+  | e :: es, p, bexp, shift, dib, hp, hne, htop, hv, hd, hb1, hasc => by
+    obtain ⟨he2, hprev, hasc'⟩ := hasc
+    have hDpos : 0 < b ^ cpl := Nat.pow_pos (by omega)
+    have hppos : 0 < val p := lt_of_lt_of_le (Nat.pow_pos B_pos) (val_ge_of_top hne htop)
+    rw [getPowLoop]
+    simp only []
+    -- the new value and exponent
+    have key : ∃ t : Nat, t ≠ 0 ∧ t * B ^ (2 * shift) = (b ^ cpl) ^ (e - 1) ∧
+        (if decide (2 * bexp + 1 < e) = true then val p * val p * b ^ cpl else val p * val p) = t ∧
+        (if decide (2 * bexp + 1 < e) = true then 2 * dib + cpl else 2 * dib) = cpl * (e - 1) ∧
+        (if decide (2 * bexp + 1 < e) = true then 2 * bexp + 1 else 2 * bexp) = e - 1 := by
+      have hsq : val p * val p * B ^ (2 * shift) = (b ^ cpl) ^ (2 * bexp) := by
+        have : (val p * B ^ shift) ^ 2 = ((b ^ cpl) ^ bexp) ^ 2 := by rw [hv]
+        rw [← pow_mul, Nat.mul_comm bexp 2] at this
+        rw [← this, Nat.mul_comm 2 shift, pow_mul]; ring
+      by_cases hadj : 2 * bexp + 1 < e
+      · have he : e - 1 = 2 * bexp + 1 := by omega
+        refine ⟨val p * val p * b ^ cpl, Nat.mul_ne_zero (Nat.mul_ne_zero (by omega) (by omega)) (by omega), ?_, by simp [hadj], ?_, by simp [hadj]; omega⟩
+        · rw [he, pow_succ, ← hsq]; ring
+        · simp only [hadj, decide_true, if_true]; rw [he, hd]; ring
+      · have he : e - 1 = 2 * bexp := by omega
+        refine ⟨val p * val p, Nat.mul_ne_zero (by omega) (by omega), ?_, by simp [hadj], ?_, by simp [hadj]; omega⟩
+        · rw [he, ← hsq]
+        · simp only [hadj, decide_false, Bool.false_eq_true, if_false]; rw [he, hd]; ring
+    obtain ⟨t, ht0, htv, e1, e2, e3⟩ := key
+    rw [e1, e2, e3]
+    obtain ⟨nv, nL⟩ := val_natLimbs t
+    obtain ⟨nne, ntop⟩ := natLimbs_top t ht0
+    obtain ⟨s1, s2, s3⟩ := stripLow_spec (natLimbs t) (2 * shift)
+    generalize hst : stripLow (natLimbs t) (2 * shift) = st at *
+    obtain ⟨tl, sh'⟩ := st
+    simp only at s1 s2 s3 ⊢
+    rw [nv, htv] at s1
+    have tlne : tl ≠ [] := by
+      intro h0; rw [h0] at s1; simp at s1
+      have := Nat.pow_pos (n := e - 1) hDpos; omega
+    have tlL : Limbs tl := fun x hx => nL x (s2 x hx)
+    have tltop : tl.getLast! ≠ 0 := by rw [s3 tlne]; exact ntop
+    refine List.Forall₂.cons ⟨s1, rfl, tlL, tlne, tltop, by omega⟩ ?_
+    exact getPowLoop_ok hb es tl (e - 1) sh' (cpl * (e - 1)) tlL tlne tltop s1 rfl (by omega)
+      (by rw [show e - 1 + 1 = e by omega]; exact hasc')
+
+theorem finalMul_ok {b cpl e : Nat} (hb : 2 ≤ b) {pw : Pow} (h : PowOk b cpl pw e) :
+    PowOk b cpl (finalMul (b ^ cpl) cpl pw) (e + 1) := by
+  have hDpos : 0 < b ^ cpl := Nat.pow_pos (by omega)
+  have hppos : 0 < val pw.p := lt_of_lt_of_le (Nat.pow_pos B_pos) (val_ge_of_top h.ne h.top)
+  have ht0 : val pw.p * b ^ cpl ≠ 0 := Nat.mul_ne_zero (by omega) (by omega)
+  obtain ⟨nv, nL⟩ := val_natLimbs (val pw.p * b ^ cpl)
+  obtain ⟨nne, ntop⟩ := natLimbs_top _ ht0
+  have hval : val (natLimbs (val pw.p * b ^ cpl)) * B ^ pw.shift = (b ^ cpl) ^ (e + 1) := by
+    rw [nv, pow_succ, ← h.value]; ring
+  have hdib : pw.dib + cpl = cpl * (e + 1) := by rw [h.dib]; ring
+  unfold finalMul
+  split
+  · rename_i rest heq
+    rw [heq] at hval nL ntop
+    have rne : rest ≠ [] := by
+      intro h0; rw [h0] at hval; simp at hval
+      have := Nat.pow_pos (n := e + 1) hDpos; omega
+    refine ⟨?_, hdib, (Limbs_cons.mp nL).2, rne, ?_, by omega⟩
+    · simp only; rw [← hval, val_cons, pow_succ]; ring
+    · simp only
+      cases rest with
+      | nil => exact absurd rfl rne
+      | cons y ys => rw [getLast!_cons_cons] at ntop; exact ntop
+  · exact ⟨hval, hdib, nL, nne, ntop, by omega⟩
+
+/-- the exponents of big_base in powtab[0], powtab[1], …: `1, exptab[n_pows-1], …, exptab[1]` -/
+def getExps (xn : Nat) : List Nat := 1 :: (expAsc xn).dropLast
+
+theorem p0_ok {b cpl : Nat} (hb : 2 ≤ b) (hbb : b ^ cpl < B) : PowOk b cpl ⟨[b ^ cpl], 0, cpl⟩ 1 := by
+  have hDpos : 0 < b ^ cpl := Nat.pow_pos (by omega)
+  refine ⟨by simp, by simp, ?_, by simp, ?_, by omega⟩
+  · exact Limbs_cons.mpr ⟨hbb, Limbs_nil⟩
+  · simp [List.getLast!]; omega
+
+/-- every entry of the table mpn_get_str builds is the exact power it stands for -/
+theorem getPowtabX_ok {b cpl : Nat} (hb : 2 ≤ b) (hbb : b ^ cpl < B) (xn : Nat) :
+    List.Forall₂ (PowOk b cpl) (getPowtabX (b ^ cpl) cpl xn) (getExps xn) := by
+  have hp0 := p0_ok (cpl := cpl) hb hbb
+  obtain ⟨hasc, _⟩ := expAsc_ok xn
+  unfold getPowtabX getExps
+  rcases Nat.lt_or_ge xn 2 with hx | hx
+  · rw [expAsc_small (by omega)]
+    exact List.Forall₂.cons hp0 List.Forall₂.nil
+  · rw [expAsc_step hx] at hasc ⊢
+    rw [List.dropLast_concat]
+    obtain ⟨hasc', _⟩ := expAsc_ok ((xn + 1) / 2)
+    generalize expAsc ((xn + 1) / 2) = body at *
+    cases body with
+    | nil => exact List.Forall₂.cons hp0 List.Forall₂.nil
+    | cons e1 targets =>
+      obtain ⟨h2, h1, hch⟩ := hasc'
+      have he1 : e1 = 2 := by omega
+      subst he1
+      refine List.Forall₂.cons hp0 ?_
+      simp only [List.map_cons]
+      refine List.Forall₂.cons (finalMul_ok hb hp0) ?_
+      have hloop := getPowLoop_ok (cpl := cpl) hb targets [b ^ cpl] 1 0 cpl hp0.limbs hp0.ne hp0.top
+        (by simp) (by simp) (by omega) hch
+      -- map finalMul over the loop entries
+      have : ∀ (l : List Pow) (es : List Nat), (∀ e ∈ es, 1 ≤ e) →
+          List.Forall₂ (fun pw e => PowOk b cpl pw (e - 1)) l es →
+          List.Forall₂ (PowOk b cpl) (l.map (finalMul (b ^ cpl) cpl)) es := by
+        intro l es hes hf
+        induction hf with
+        | nil => exact List.Forall₂.nil
+        | @cons pw e l' es' h _ ih =>
+          refine List.Forall₂.cons ?_ (ih (fun e he => hes e (List.mem_cons_of_mem _ he)))
+          have := finalMul_ok hb h
+          rwa [show e - 1 + 1 = e by have := hes e (List.mem_cons_self ..); omega] at this
+      refine this _ _ ?_ hloop
+      -- every target is at least 2
+      have hge : ∀ (l : List Nat) (prev : Nat), AscOk prev l → ∀ e ∈ l, 1 ≤ e := by
+        intro l
+        induction l with
+        | nil => intro _ _ e he; cases he
+        | cons x xs ih =>
+          intro prev h e he
+          rcases List.mem_cons.mp he with rfl | he'
+          · have := h.1; omega
+          · exact ih x h.2.2 e he'
+      exact hge targets 2 hch
+
+/-- consecutive exponents at most double -/
+def AscChain : Nat → List Nat → Prop
+  | _, [] => True
+  | prev, e :: l => e ≤ 2 * prev ∧ AscChain e l
+
+theorem AscOk.chain : ∀ (l : List Nat) (prev : Nat), AscOk prev l → AscChain prev l
+  | [], _, _ => trivial
+  | e :: l, prev, h => ⟨by have := h.2.1; omega, AscOk.chain l e h.2.2⟩
+
+theorem getTabOk_rev {b cpl : Nat} : ∀ (tab : List Pow) (es : List Nat) (pwh : Pow) (eh : Nat) (accT : List Pow)
+    (accE : List Nat), GetTabOk b cpl (pwh :: accT) (eh :: accE) → List.Forall₂ (PowOk b cpl) tab es →
+    AscChain eh es → ∃ pw rest e es', tab.reverse ++ pwh :: accT = pw :: rest ∧ es.reverse ++ eh :: accE = e :: es' ∧
+      GetTabOk b cpl (pw :: rest) (e :: es') ∧ e = es.getLastD eh
+  | [], es, pwh, eh, accT, accE, hacc, hf, _ => by
+    cases hf
+    exact ⟨pwh, accT, eh, accE, rfl, rfl, hacc, rfl⟩
+  | pw :: tab, es, pwh, eh, accT, accE, hacc, hf, hch => by
+    cases hf with
+    | cons h hf' =>
+      rename_i e es1
+      obtain ⟨c1, c2⟩ := hch
+      have hacc' : GetTabOk b cpl (pw :: pwh :: accT) (e :: eh :: accE) := ⟨h, c1, hacc⟩
+      obtain ⟨pw2, rest, e2, es2, r1, r2, r3, r4⟩ := getTabOk_rev tab es1 pw e (pwh :: accT) (eh :: accE) hacc' hf' c2
+      refine ⟨pw2, rest, e2, es2, ?_, ?_, r3, ?_⟩
+      · rw [List.reverse_cons, List.append_assoc]; exact r1
+      · rw [List.reverse_cons, List.append_assoc]; exact r2
+      · rw [r4, List.getLastD_cons]
+
+/-- the table as mpn_dc_get_str receives it (top entry first) is a table of exact powers with exponents at
+    most doubling from entry to entry, entry 0 = big_base, and the top power is at least big_base^(xn/2) -/
+theorem getPowtab_rev_ok {b cpl : Nat} (hb : 2 ≤ b) (hbb : b ^ cpl < B) (xn : Nat) :
+    ∃ pw rest e es, (getPowtabX (b ^ cpl) cpl xn).reverse = pw :: rest ∧ GetTabOk b cpl (pw :: rest) (e :: es) ∧
+      xn ≤ 2 * e := by
+  have hall := getPowtabX_ok hb hbb xn
+  obtain ⟨hasc, hlast⟩ := expAsc_ok xn
+  unfold getExps at hall
+  generalize getPowtabX (b ^ cpl) cpl xn = tab at *
+  cases hall with
+  | cons h0 hrest =>
+    rename_i pw0 tab'
+    -- the chain 1 :: dropLast
+    have hchain : AscChain 1 (expAsc xn).dropLast ∧ xn ≤ 2 * (expAsc xn).dropLast.getLastD 1 := by
+      rcases Nat.lt_or_ge xn 2 with hx | hx
+      · rw [expAsc_small (by omega)]; exact ⟨trivial, by simp; omega⟩
+      · rw [expAsc_step hx, List.dropLast_concat]
+        obtain ⟨b1, b2⟩ := expAsc_ok ((xn + 1) / 2)
+        exact ⟨AscOk.chain _ _ b1, by rw [b2 (by omega)]; omega⟩
+    have hbase : GetTabOk b cpl [pw0] [1] := ⟨h0, rfl⟩
+    obtain ⟨pw, rest, e, es, r1, _, r3, r4⟩ := getTabOk_rev tab' _ pw0 1 [] [] hbase hrest hchain.1
+    refine ⟨pw, rest, e, es, ?_, r3, by rw [r4]; exact hchain.2⟩
+    rw [List.reverse_cons]; exact r1
+
+/-! ### mpn_get_str, all sizes -/
+
+/-- the divide-and-conquer branch of mpn_get_str: table + recursion produce the digits of the operand -/
+theorem get_str_dc_branch {b : Nat} (hb : 2 ≤ b) (hb62 : b ≤ 62) (hok : NonPow2Ok b) (h10 : Base10Ok)
+    (hx : XnOk b) (hbig : 2 ^ (sibHint b).2.2.2.2.2 < b ^ (sibHint b).2.2.2.2.1)
+    (T : Nat) (hT : 4 ≤ T) (up : List Nat) (hu : Limbs up) (hne : up ≠ []) (htop : up.getLast! ≠ 0)
+    (hsize : up.length ≤ 2 ^ 36) :
+    dcGetStr T b (getPowtab b up.length).reverse 0 up = some (digitsOf b (val up)) := by
+  have hcpl := hok.cpl_pos hb62
+  have hbb : b ^ charsPerLimb b < B := hok.2.1
+  have hsb := fun (u : List Nat) (h1 : Limbs u) (h2 : u ≠ []) => sb_get_str_pad hb hb62 hok h10 u h1 h2
+  have hun : 1 ≤ up.length := List.length_pos_iff.mpr hne
+  have hxl := xn_large hb hx hbig hun hsize
+  unfold getPowtab
+  rw [hok.1]
+  obtain ⟨pw, rest, e, es, hrev, htab, hxn⟩ := getPowtab_rev_ok (cpl := charsPerLimb b) hb hbb (xnOf b up.length)
+  rw [hrev]
+  have hpk := htab.head
+  have hDpos : 0 < b ^ charsPerLimb b := Nat.pow_pos (by omega)
+  -- val up < P²·B^(T-3)
+  have hv := val_lt up hu
+  have hge := val_ge_of_top hne htop
+  have hcap2 : val up < ((b ^ charsPerLimb b) ^ e) ^ 2 * B ^ (T - 3) := by
+    have e1 : B ^ up.length = B ^ (up.length - 1) * B := by rw [← pow_succ]; congr 1; omega
+    have e2 : (b ^ charsPerLimb b) ^ xnOf b up.length ≤ ((b ^ charsPerLimb b) ^ e) ^ 2 := by
+      rw [← pow_mul (b ^ charsPerLimb b) e 2]; exact Nat.pow_le_pow_right hDpos (by omega)
+    have e3 : B ≤ B ^ (T - 3) := by
+      calc B = B ^ 1 := (pow_one B).symm
+        _ ≤ B ^ (T - 3) := Nat.pow_le_pow_right B_pos (by omega)
+    calc val up < B ^ (up.length - 1) * B := by rw [← e1]; exact hv
+      _ ≤ ((b ^ charsPerLimb b) ^ e) ^ 2 * B ^ (T - 3) := Nat.mul_le_mul (le_trans hxl e2) e3
+  have hcap1 : up.length ≤ 2 * (pw.p.length + pw.shift) + (T - 3) := by
+    have hup := hpk.upper
+    have h2 : ((b ^ charsPerLimb b) ^ e) ^ 2 * B ^ (T - 3) < B ^ (2 * (pw.p.length + pw.shift) + (T - 3)) := by
+      rw [pow_add, Nat.mul_comm 2, pow_mul]
+      exact Nat.mul_lt_mul_of_pos_right (Nat.pow_lt_pow_left hup (by omega)) (Nat.pow_pos B_pos)
+    have h3 : B ^ (up.length - 1) < B ^ (2 * (pw.p.length + pw.shift) + (T - 3)) :=
+      lt_of_le_of_lt hge (lt_trans hcap2 h2)
+    have := (Nat.pow_lt_pow_iff_right (by rw [B_eq]; omega : 1 < B)).mp h3
+    omega
+  have := dcGetStr_ok hb hcpl hbb (by omega : 3 ≤ T) hsb rest es pw e htab 0 up hu hcap1 hcap2
+    (fun _ => ⟨hne, htop⟩) (fun h => absurd rfl h)
+  rw [this]; rfl
+
+/-- mpn_get_str with the divide-and-conquer branch modelled, every base 2..62, every operand below 2^36 limbs,
+    every pair of thresholds with GET_STR_DC_THRESHOLD ≥ 4: exactly the digits of the operand -/
+theorem mpn_get_str_dc_of_table {b : Nat} (hb : 2 ≤ b) (hb62 : b ≤ 62)
+    (hnp : pow2P b = false → NonPow2Ok b ∧ XnOk b ∧ 2 ^ (sibHint b).2.2.2.2.2 < b ^ (sibHint b).2.2.2.2.1)
+    (hp : pow2P b = true → Pow2Ok b) (h10 : Base10Ok)
+    (dcT preT : Nat) (hT : 4 ≤ dcT) (up : List Nat) (hu : Limbs up) (hne : up ≠ []) (htop : up.getLast! ≠ 0)
+    (hsize : up.length ≤ 2 ^ 36) :
+    mpn_get_str_dc dcT preT b up = some (digitsOf b (val up)) := by
+  unfold mpn_get_str_dc
+  have hl : (up.length == 0) = false := by
+    cases up with
+    | nil => exact absurd rfl hne
+    | cons _ _ => rfl
+  simp only [hl, Bool.false_eq_true, if_false]
+  cases hpw : pow2P b with
+  | true =>
+    simp only [if_true]
+    have hok := hp hpw
+    rw [get_str_pow2_of_table hb hok (bigBase_le_64 hb62 hok) up hu hne htop]
+  | false =>
+    simp only [Bool.false_eq_true, if_false]
+    obtain ⟨hok, hx, hbig⟩ := hnp hpw
+    split
+    · rw [sb_get_str_of_table hb hb62 hok h10 up hu hne htop]
+    · exact get_str_dc_branch hb hb62 hok h10 hx hbig dcT hT up hu hne htop hsize
 
 end Mpir.RadixDc
